@@ -21,6 +21,7 @@ import (
 	"github.com/acquirecloud/golibs/kvs"
 	"github.com/acquirecloud/golibs/ulidutils"
 	"github.com/gobwas/glob"
+	"math"
 	"sync"
 	"time"
 )
@@ -192,7 +193,12 @@ func (s *service) WaitForVersionChange(ctx context.Context, key, ver string) err
 		var expCh <-chan time.Time
 		var tmr *time.Timer
 		if r.ExpiresAt != nil {
-			tmr = time.NewTimer(time.Until(*r.ExpiresAt) + time.Nanosecond)
+			d := time.Until(*r.ExpiresAt)
+			if d < math.MaxInt64 {
+				// Before() is strict, so wake up just after the expiration moment
+				d += time.Nanosecond
+			}
+			tmr = time.NewTimer(d)
 			expCh = tmr.C
 		}
 
